@@ -385,7 +385,7 @@ def run(ctx, anchors=None, failed_step_rule=False):
     from .. import symx as _sx4
     ctx.rule("R04.6", "undoing the finishing step only reopens the session: Instance::rewind does not pop a history entry when the session was done")
     irw = fb.fn(*A["inst_rewind"])
-    X4 = _sx4.Explorer(prog, inline=lambda fn, n: False, transparent=lambda n: True)
+    X4 = _sx4.Explorer(prog, inline=lambda fn, n: fn.rec == irw.rec and fn.body is not None and len(fn.nodes()) <= 16, transparent=lambda n: True)      # at_end() / at_start() style accessors
     try:
         outs4 = X4.explore(irw, this=("a", "this"), limit=500)
     except _sx4.Unsupported as e:
